@@ -8,7 +8,7 @@ import OVM.Refine.CacheFastClosure
       (`WF` kept by `wf_swap*`), then pop a FLAGGED last slot";
     * popping a flagged last slot keeps `WF` (`wf_popDeadCell/Face/Edge`): the scans never saw it, the
       caches never listed it, the unlink stage finds nothing to remove;
-    * the sweep invariant: everything above the current index is un-flagged (`gcSweep_induct`).
+    * the sweep invariant: everything above the current index is un-flagged (`k3_gcSweep_induct`).
   Besides `WF ∧ oneCell` the sweeps need the upward closure of the flags (`UpC/UpF/UpE`): in fast mode
   the cores do not repair definitions one level up.
 -/
@@ -365,7 +365,7 @@ theorem wf_popDeadEdge {k : Kernel} (hfast : k.fast = true) (hpos : 0 < k.nE) (h
 /-! ### the sweeps of `collect_garbage` in fast mode -/
 
 /-- induction along one sweep: `P m k` = "indices `m-1 … 0` are still to be visited" -/
-theorem gcSweep_induct (P : Nat → Kernel → Prop) (isDel : Kernel → Nat → Bool) (unflag core : Kernel → Nat → Kernel)
+theorem k3_gcSweep_induct (P : Nat → Kernel → Prop) (isDel : Kernel → Nat → Bool) (unflag core : Kernel → Nat → Kernel)
     (step : ∀ m k, P (m + 1) k → P m (if isDel k m then core (unflag k m) m else k)) :
     ∀ n k, P n k → P 0 (gcSweep k n isDel unflag core) := by
   intro n
@@ -397,7 +397,7 @@ def UpE (k : Kernel) : Prop :=
   ∀ e, e < k.nE → k.eDeleted e = false → k.vDeleted (k.edgeAt e).1 = false ∧ k.vDeleted (k.edgeAt e).2 = false
 
 /-- the state inside `collect_garbage` -/
-structure GCInv (k : Kernel) : Prop where
+structure FastGCInv (k : Kernel) : Prop where
   imm : k.deferred = false
   fast : k.fast = true
   wf : WF k
@@ -409,9 +409,9 @@ theorem k3_getD_swapAt_pop' {α} (l : List α) (h i : Nat) (d : α) (hh : h < l.
   subst hn; exact k3_getD_swapAt_pop l h i d hh hi
 
 /-- one flagged step of the cell sweep -/
-theorem gcStepC {k : Kernel} (hi : GCInv k) {m : Nat} (hm : m < k.nC) (hdel : k.cDeleted m = true)
+theorem gcStepC {k : Kernel} (hi : FastGCInv k) {m : Nat} (hm : m < k.nC) (hdel : k.cDeleted m = true)
     (habove : ∀ j, m < j → k.cDeleted j = false) (hC : UpC k) (hF : UpF k) (hE : UpE k) :
-    GCInv (deleteCellCore (unflagC k m) m) ∧ m ≤ (deleteCellCore (unflagC k m) m).nC ∧
+    FastGCInv (deleteCellCore (unflagC k m) m) ∧ m ≤ (deleteCellCore (unflagC k m) m).nC ∧
     (∀ j, m ≤ j → (deleteCellCore (unflagC k m) m).cDeleted j = false) ∧
     UpC (deleteCellCore (unflagC k m) m) ∧ UpF (deleteCellCore (unflagC k m) m) ∧ UpE (deleteCellCore (unflagC k m) m) := by
   have hlC := hi.wf.len.cDel
@@ -500,15 +500,15 @@ theorem wf_withNDel {k : Kernel} (a b c d : Nat) (hw : WF k) :
    ⟨cacheInvV_of_eq (k := k) rfl rfl rfl rfl rfl hw.cache.v, cacheInvE_of_eq (k := k) rfl rfl rfl rfl rfl hw.cache.e,
     cacheInvF_of_eq (k := k) rfl rfl rfl rfl rfl hw.cache.f⟩⟩
 
-theorem gcInv_withNDel {k : Kernel} (a b c d : Nat) (hi : GCInv k) :
-    GCInv { k with nDelV := a, nDelE := b, nDelF := c, nDelC := d } :=
+theorem fastGCInv_withNDel {k : Kernel} (a b c d : Nat) (hi : FastGCInv k) :
+    FastGCInv { k with nDelV := a, nDelE := b, nDelF := c, nDelC := d } :=
   ⟨hi.imm, hi.fast, wf_withNDel a b c d hi.wf, k3_oneCell_of_cells_eq (k := k) rfl rfl rfl hi.one⟩
 
 /-- the cell sweep of `collect_garbage` (fast mode) -/
-theorem gcCells_fast {k : Kernel} (hi : GCInv k) (hC : UpC k) (hF : UpF k) (hE : UpE k) :
-    GCInv (gcCells k) ∧ NoFlag (gcCells k).cDel ∧ UpC (gcCells k) ∧ UpF (gcCells k) ∧ UpE (gcCells k) := by
-  have key := gcSweep_induct
-    (fun m k => GCInv k ∧ m ≤ k.nC ∧ (∀ j, m ≤ j → k.cDeleted j = false) ∧ UpC k ∧ UpF k ∧ UpE k)
+theorem gcCells_fast {k : Kernel} (hi : FastGCInv k) (hC : UpC k) (hF : UpF k) (hE : UpE k) :
+    FastGCInv (gcCells k) ∧ NoFlag (gcCells k).cDel ∧ UpC (gcCells k) ∧ UpF (gcCells k) ∧ UpE (gcCells k) := by
+  have key := k3_gcSweep_induct
+    (fun m k => FastGCInv k ∧ m ≤ k.nC ∧ (∀ j, m ≤ j → k.cDeleted j = false) ∧ UpC k ∧ UpF k ∧ UpE k)
     cDeleted (fun k i => { k with cDel := k.cDel.set i false }) deleteCellCore
     (by
       intro m k ⟨h1, h2, h3, h4, h5, h6⟩
@@ -526,7 +526,7 @@ theorem gcCells_fast {k : Kernel} (hi : GCInv k) (hC : UpC k) (hF : UpF k) (hE :
         unfold cDeleted; exact getD_of_ge _ _ _ (by rw [hi.wf.len.cDel]; exact hj), hC, hF, hE⟩
   obtain ⟨g1, _, g3, g4, g5, g6⟩ := key
   unfold gcCells
-  exact ⟨gcInv_withNDel _ _ _ 0 g1, noFlag_of_getD (fun j => g3 j (Nat.zero_le _)), g4, g5, g6⟩
+  exact ⟨fastGCInv_withNDel _ _ _ 0 g1, noFlag_of_getD (fun j => g3 j (Nat.zero_le _)), g4, g5, g6⟩
 
 theorem k3_relabelId_last {m n : Nat} : relabelId m n n = m := by
   unfold relabelId; by_cases e : n = m <;> simp [e]
@@ -535,9 +535,9 @@ theorem k3_relabelId_fst {m n : Nat} : relabelId m n m = n := by
   unfold relabelId; simp
 
 /-- one flagged step of the face sweep (all flagged cells are gone already) -/
-theorem gcStepF {k : Kernel} (hi : GCInv k) {m : Nat} (hm : m < k.nF) (hdel : k.fDeleted m = true)
+theorem gcStepF {k : Kernel} (hi : FastGCInv k) {m : Nat} (hm : m < k.nF) (hdel : k.fDeleted m = true)
     (habove : ∀ j, m < j → k.fDeleted j = false) (hnfC : NoFlag k.cDel) (hC : UpC k) (hF : UpF k) (hE : UpE k) :
-    GCInv (deleteFaceCore (unflagF k m) m) ∧ m ≤ (deleteFaceCore (unflagF k m) m).nF ∧
+    FastGCInv (deleteFaceCore (unflagF k m) m) ∧ m ≤ (deleteFaceCore (unflagF k m) m).nF ∧
     (∀ j, m ≤ j → (deleteFaceCore (unflagF k m) m).fDeleted j = false) ∧
     NoFlag (deleteFaceCore (unflagF k m) m).cDel ∧
     UpC (deleteFaceCore (unflagF k m) m) ∧ UpF (deleteFaceCore (unflagF k m) m) ∧ UpE (deleteFaceCore (unflagF k m) m) := by
@@ -648,10 +648,10 @@ theorem gcStepF {k : Kernel} (hi : GCInv k) {m : Nat} (hm : m < k.nF) (hdel : k.
     exact hE e he hnd
 
 /-- the face sweep of `collect_garbage` (fast mode), after the cell sweep -/
-theorem gcFaces_fast {k : Kernel} (hi : GCInv k) (hnfC : NoFlag k.cDel) (hC : UpC k) (hF : UpF k) (hE : UpE k) :
-    GCInv (gcFaces k) ∧ NoFlag (gcFaces k).cDel ∧ NoFlag (gcFaces k).fDel ∧ UpF (gcFaces k) ∧ UpE (gcFaces k) := by
-  have key := gcSweep_induct
-    (fun m k => GCInv k ∧ m ≤ k.nF ∧ (∀ j, m ≤ j → k.fDeleted j = false) ∧ NoFlag k.cDel ∧ UpC k ∧ UpF k ∧ UpE k)
+theorem gcFaces_fast {k : Kernel} (hi : FastGCInv k) (hnfC : NoFlag k.cDel) (hC : UpC k) (hF : UpF k) (hE : UpE k) :
+    FastGCInv (gcFaces k) ∧ NoFlag (gcFaces k).cDel ∧ NoFlag (gcFaces k).fDel ∧ UpF (gcFaces k) ∧ UpE (gcFaces k) := by
+  have key := k3_gcSweep_induct
+    (fun m k => FastGCInv k ∧ m ≤ k.nF ∧ (∀ j, m ≤ j → k.fDeleted j = false) ∧ NoFlag k.cDel ∧ UpC k ∧ UpF k ∧ UpE k)
     fDeleted (fun k i => { k with fDel := k.fDel.set i false }) deleteFaceCore
     (by
       intro m k ⟨h1, h2, h3, h4, h5, h6, h7⟩
@@ -669,13 +669,13 @@ theorem gcFaces_fast {k : Kernel} (hi : GCInv k) (hnfC : NoFlag k.cDel) (hC : Up
         unfold fDeleted; exact getD_of_ge _ _ _ (by rw [hi.wf.len.fDel]; exact hj), hnfC, hC, hF, hE⟩
   obtain ⟨g1, _, g3, g4, _, g6, g7⟩ := key
   unfold gcFaces
-  exact ⟨gcInv_withNDel _ _ 0 _ g1, g4, noFlag_of_getD (fun j => g3 j (Nat.zero_le _)), g6, g7⟩
+  exact ⟨fastGCInv_withNDel _ _ 0 _ g1, g4, noFlag_of_getD (fun j => g3 j (Nat.zero_le _)), g6, g7⟩
 
 /-- one flagged step of the edge sweep (no flagged cell or face is left) -/
-theorem gcStepE {k : Kernel} (hi : GCInv k) {m : Nat} (hm : m < k.nE) (hdel : k.eDeleted m = true)
+theorem gcStepE {k : Kernel} (hi : FastGCInv k) {m : Nat} (hm : m < k.nE) (hdel : k.eDeleted m = true)
     (habove : ∀ j, m < j → k.eDeleted j = false) (hnfC : NoFlag k.cDel) (hnfF : NoFlag k.fDel)
     (hF : UpF k) (hE : UpE k) :
-    GCInv (deleteEdgeCore (unflagE k m) m) ∧ m ≤ (deleteEdgeCore (unflagE k m) m).nE ∧
+    FastGCInv (deleteEdgeCore (unflagE k m) m) ∧ m ≤ (deleteEdgeCore (unflagE k m) m).nE ∧
     (∀ j, m ≤ j → (deleteEdgeCore (unflagE k m) m).eDeleted j = false) ∧
     NoFlag (deleteEdgeCore (unflagE k m) m).cDel ∧ NoFlag (deleteEdgeCore (unflagE k m) m).fDel ∧
     UpF (deleteEdgeCore (unflagE k m) m) ∧ UpE (deleteEdgeCore (unflagE k m) m) := by
@@ -773,10 +773,10 @@ theorem gcStepE {k : Kernel} (hi : GCInv k) {m : Nat} (hm : m < k.nE) (hdel : k.
     · rw [if_neg ‹_›] at hnd; exact hE e (by omega) hnd
 
 /-- the edge sweep of `collect_garbage` (fast mode), after the cell and face sweeps -/
-theorem gcEdges_fast {k : Kernel} (hi : GCInv k) (hnfC : NoFlag k.cDel) (hnfF : NoFlag k.fDel) (hF : UpF k) (hE : UpE k) :
-    GCInv (gcEdges k) ∧ NoFlag (gcEdges k).cDel ∧ NoFlag (gcEdges k).fDel ∧ NoFlag (gcEdges k).eDel ∧ UpE (gcEdges k) := by
-  have key := gcSweep_induct
-    (fun m k => GCInv k ∧ m ≤ k.nE ∧ (∀ j, m ≤ j → k.eDeleted j = false) ∧ NoFlag k.cDel ∧ NoFlag k.fDel ∧ UpF k ∧ UpE k)
+theorem gcEdges_fast {k : Kernel} (hi : FastGCInv k) (hnfC : NoFlag k.cDel) (hnfF : NoFlag k.fDel) (hF : UpF k) (hE : UpE k) :
+    FastGCInv (gcEdges k) ∧ NoFlag (gcEdges k).cDel ∧ NoFlag (gcEdges k).fDel ∧ NoFlag (gcEdges k).eDel ∧ UpE (gcEdges k) := by
+  have key := k3_gcSweep_induct
+    (fun m k => FastGCInv k ∧ m ≤ k.nE ∧ (∀ j, m ≤ j → k.eDeleted j = false) ∧ NoFlag k.cDel ∧ NoFlag k.fDel ∧ UpF k ∧ UpE k)
     eDeleted (fun k i => { k with eDel := k.eDel.set i false }) deleteEdgeCore
     (by
       intro m k ⟨h1, h2, h3, h4, h5, h6, h7⟩
@@ -794,7 +794,7 @@ theorem gcEdges_fast {k : Kernel} (hi : GCInv k) (hnfC : NoFlag k.cDel) (hnfF : 
         unfold eDeleted; exact getD_of_ge _ _ _ (by rw [hi.wf.len.eDel]; exact hj), hnfC, hnfF, hF, hE⟩
   obtain ⟨g1, _, g3, g4, g5, _, g7⟩ := key
   unfold gcEdges
-  exact ⟨gcInv_withNDel _ 0 _ _ g1, g4, g5, noFlag_of_getD (fun j => g3 j (Nat.zero_le _)), g7⟩
+  exact ⟨fastGCInv_withNDel _ 0 _ _ g1, g4, g5, noFlag_of_getD (fun j => g3 j (Nat.zero_le _)), g7⟩
 
 theorem swapVertex_edges_all {k : Kernel} {a b : Nat} (ha : a < k.nV) (hb : b < k.nV) (hV : CacheInvV k)
     (hlive : k.vBU = true → NoFlag k.eDel) :
@@ -825,10 +825,10 @@ theorem wf_unflagV {k : Kernel} (i : Nat) (hw : WF k) : WF (unflagV k i) :=
 def VRef (k : Kernel) : Prop := ∀ e ∈ k.edges, k.vDeleted e.1 = false ∧ k.vDeleted e.2 = false
 
 /-- one flagged step of the vertex sweep -/
-theorem gcStepV {k : Kernel} (hi : GCInv k) {m : Nat} (hm : m < k.nV) (hdel : k.vDeleted m = true)
+theorem gcStepV {k : Kernel} (hi : FastGCInv k) {m : Nat} (hm : m < k.nV) (hdel : k.vDeleted m = true)
     (habove : ∀ j, m < j → k.vDeleted j = false) (hnfC : NoFlag k.cDel) (hnfF : NoFlag k.fDel)
     (hnfE : NoFlag k.eDel) (hR : VRef k) :
-    GCInv (deleteVertexCore (unflagV k m) m) ∧ m ≤ (deleteVertexCore (unflagV k m) m).nV ∧
+    FastGCInv (deleteVertexCore (unflagV k m) m) ∧ m ≤ (deleteVertexCore (unflagV k m) m).nV ∧
     (∀ j, m ≤ j → (deleteVertexCore (unflagV k m) m).vDeleted j = false) ∧
     NoFlag (deleteVertexCore (unflagV k m) m).cDel ∧ NoFlag (deleteVertexCore (unflagV k m) m).fDel ∧
     NoFlag (deleteVertexCore (unflagV k m) m).eDel ∧ VRef (deleteVertexCore (unflagV k m) m) := by
@@ -897,16 +897,16 @@ theorem gcStepV {k : Kernel} (hi : GCInv k) {m : Nat} (hm : m < k.nV) (hdel : k.
     exact ⟨key _ hrange.1 hne.1 hr.1, key _ hrange.2 hne.2 hr.2⟩
 
 /-- the vertex sweep of `collect_garbage` (fast mode), after the other three -/
-theorem gcVerts_fast {k : Kernel} (hi : GCInv k) (hnfC : NoFlag k.cDel) (hnfF : NoFlag k.fDel) (hnfE : NoFlag k.eDel)
+theorem gcVerts_fast {k : Kernel} (hi : FastGCInv k) (hnfC : NoFlag k.cDel) (hnfF : NoFlag k.fDel) (hnfE : NoFlag k.eDel)
     (hE : UpE k) :
-    GCInv (gcVerts k) ∧ NoFlag (gcVerts k).cDel ∧ NoFlag (gcVerts k).fDel ∧ NoFlag (gcVerts k).eDel ∧
+    FastGCInv (gcVerts k) ∧ NoFlag (gcVerts k).cDel ∧ NoFlag (gcVerts k).fDel ∧ NoFlag (gcVerts k).eDel ∧
     NoFlag (gcVerts k).vDel := by
   have hR : VRef k := by
     intro e he
     obtain ⟨i, hil, rfl⟩ := k3_mem_getD (0, 0) he
     exact hE i hil (by unfold eDeleted; exact hnfE.getD i)
-  have key := gcSweep_induct
-    (fun m k => GCInv k ∧ m ≤ k.nV ∧ (∀ j, m ≤ j → k.vDeleted j = false) ∧ NoFlag k.cDel ∧ NoFlag k.fDel ∧
+  have key := k3_gcSweep_induct
+    (fun m k => FastGCInv k ∧ m ≤ k.nV ∧ (∀ j, m ≤ j → k.vDeleted j = false) ∧ NoFlag k.cDel ∧ NoFlag k.fDel ∧
       NoFlag k.eDel ∧ VRef k)
     vDeleted (fun k i => { k with vDel := k.vDel.set i false }) deleteVertexCore
     (by
@@ -925,7 +925,7 @@ theorem gcVerts_fast {k : Kernel} (hi : GCInv k) (hnfC : NoFlag k.cDel) (hnfF : 
         unfold vDeleted; exact getD_of_ge _ _ _ (by rw [hi.wf.len.vDel]; exact hj), hnfC, hnfF, hnfE, hR⟩
   obtain ⟨g1, _, g3, g4, g5, g6, _⟩ := key
   unfold gcVerts
-  exact ⟨gcInv_withNDel 0 _ _ _ g1, g4, g5, g6, noFlag_of_getD (fun j => g3 j (Nat.zero_le _))⟩
+  exact ⟨fastGCInv_withNDel 0 _ _ _ g1, g4, g5, g6, noFlag_of_getD (fun j => g3 j (Nat.zero_le _))⟩
 
 theorem wf_withDeferred {k : Kernel} (b : Bool) (hw : WF k) : WF { k with deferred := b } :=
   ⟨lenInv_withDeferred k b hw.len, rangeInv_of_eq (k := k) rfl rfl rfl rfl hw.range,
@@ -951,7 +951,7 @@ theorem collectGarbage_fast {k : Kernel} (hf : k.fast = true) (hw : WF k) (h1 : 
     refine ⟨hw, h1, hf, fun hd hn => ?_⟩
     simp [hd, hn] at hrun
   · rw [if_neg hrun]
-    have hi0 : GCInv { k with deferred := false } :=
+    have hi0 : FastGCInv { k with deferred := false } :=
       ⟨rfl, hf, wf_withDeferred false hw, (oneCell_withDeferred k false).trans h1⟩
     obtain ⟨c1, c2, c3, c4, c5⟩ := gcCells_fast hi0 hC hF hE
     obtain ⟨f1, f2, f3, f4, f5⟩ := gcFaces_fast c1 c2 c3 c4 c5
